@@ -88,6 +88,9 @@ func decorateNodeOpts(p *Program, nt nodeType) *UnitOpts {
 	opts := caseOpts("n", ant, "ast")
 	opts.Trace = true
 	consulted := p.consultedPaths(key, ant)
+	opts.AtBackEdge = func(ex *Exec, frm *frame, lr *loopRec, edge int, g string, st *State) {
+		errorsNotDroppedByContinuing(ex, frm, lr, edge, "decorateNode/"+nt.Name, g)
+	}
 	opts.AtExit = func(ex *Exec, frm *frame, g string, st *State, res []Val) {
 		if len(res) != 2 {
 			return
